@@ -282,7 +282,7 @@ func main() {
 		ab := blk.ToBytes(arr)
 		cls, b := goMakeBlock(ab, c.G)
 		var data []byte
-		var dec, dec2 uint64
+		var dec, dec2, wlv uint64
 		var vals, ptl []uint64
 		counts := map[uint64]int32{}
 		if cls == "ok" {
@@ -293,6 +293,21 @@ func main() {
 				cls = dc
 			}
 			dec = d
+			wp, _ := lib.Recover(func() {
+				var buf bytes.Buffer
+				if err := b.WriteLabelVolume(&buf); err != nil {
+					wlv = ^d
+					return
+				}
+				if buf.Len()%8 != 0 {
+					wlv = ^d
+					return
+				}
+				wlv = blk.DigestBytes(buf.Bytes())
+			})
+			if wp {
+				cls = "panic"
+			}
 			uc, b2 := goUnmarshal(data)
 			if uc == "ok" {
 				_, dec2 = goDecode(b2)
@@ -316,8 +331,8 @@ func main() {
 				cls = "panic"
 			}
 		}
-		term := fmt.Sprintf("(CEnc %d %d %d %s %s %d %d %s %s %s %s)", c.G[0], c.G[1], c.G[2], blk.CoqPaints(c.Paints),
-			resBytes(cls, data), dec, dec2, coqPts(c.Pts), lib.CoqNList(vals), lib.CoqNList(ptl), coqAssoc(counts))
+		term := fmt.Sprintf("(CEnc %d %d %d %s %s %d %d %d %s %s %s %s)", c.G[0], c.G[1], c.G[2], blk.CoqPaints(c.Paints),
+			resBytes(cls, data), dec, dec2, wlv, coqPts(c.Pts), lib.CoqNList(vals), lib.CoqNList(ptl), coqAssoc(counts))
 		nl := blk.Distinct(arr)
 		run.Count(fmt.Sprintf("enc:size:%dx%dx%d", c.G[0], c.G[1], c.G[2]))
 		run.Count("enc:labels:" + blk.Bucket(nl))
@@ -439,6 +454,58 @@ func main() {
 		}
 	}
 
+	addAlias := func(c jcase) {
+		arr := blk.Expand(8*c.G[0], 8*c.G[1], 8*c.G[2], c.Paints)
+		c1, c2 := "err", "err"
+		var d1, d2 uint64
+		p, _ := lib.Recover(func() {
+			a, err := labels.MakeBlock(blk.ToBytes(arr), dvid.Point3d{int32(8 * c.G[0]), int32(8 * c.G[1]), int32(8 * c.G[2])})
+			if err != nil {
+				return
+			}
+			ser, _ := a.MarshalBinary()
+			// (1) parse from a read buffer, then refill the buffer with another block's bytes
+			buf := make([]byte, len(ser)) // a fresh allocation: 8-byte aligned like a decompressed value
+			copy(buf, ser)
+			var parsed labels.Block
+			if err := parsed.UnmarshalBinary(buf); err != nil {
+				return
+			}
+			other := labels.MakeSolidBlock(^uint64(0), a.Size)
+			ob, _ := other.MarshalBinary()
+			for i := range buf {
+				buf[i] = ob[i%len(ob)] ^ byte(i)
+			}
+			copy(buf, ob)
+			c1, d1 = goDecode(&parsed)
+			if back, _ := parsed.MarshalBinary(); !bytes.Equal(back, ser) && c1 == "ok" {
+				d1 = ^d1
+			}
+			// (2) marshal, parse a clone from those bytes, overwrite the clone's label table in place
+			keep := append([]byte{}, ser...)
+			var clone labels.Block
+			if err := clone.UnmarshalBinary(ser); err != nil {
+				return
+			}
+			for i := range clone.Labels {
+				clone.Labels[i] = ^clone.Labels[i]
+			}
+			for i := range clone.SBIndices {
+				clone.SBIndices[i] = 0
+			}
+			c2, d2 = goDecode(a)
+			if now, _ := a.MarshalBinary(); !bytes.Equal(now, keep) && c2 == "ok" {
+				d2 = ^d2
+			}
+		})
+		if p {
+			c1 = "panic"
+		}
+		term := fmt.Sprintf("(CAlias %d %d %d %s %s %s)", c.G[0], c.G[1], c.G[2], blk.CoqPaints(c.Paints), resN(c1, d1), resN(c2, d2))
+		run.Count("alias:result:" + c1 + "/" + c2)
+		run.Add("alias", term, c, fmt.Sprintf("alias/%v/%x", c.G, blk.Digest(arr)))
+	}
+
 	addDec := func(c jcase) {
 		arr := blk.Expand(8*c.G[0], 8*c.G[1], 8*c.G[2], c.Paints)
 		tbl := blk.TableOrder(arr, c.Order)
@@ -476,6 +543,8 @@ func main() {
 			addView(c)
 		case "rlem", "binm":
 			addMulti(c)
+		case "alias":
+			addAlias(c)
 		case "dec":
 			addDec(c)
 		}
@@ -516,6 +585,21 @@ func main() {
 			addEnc(jcase{Kind: "enc", G: g5, Paints: []blk.Paint{blk.Hash([6]int{0, 0, 0, 24, 24, 40}, 2, 5, []uint64{1, 2, 3})}, Pts: samplePts(g5, 6)})
 		}
 	}
+
+	// solid blocks (label 0, a small label, 2^64-1) over the size sweep — voxel counts that are and are
+	// not multiples of 4096 — through every decoder: MakeLabelVolume, WriteLabelVolume, Value, counts
+	solidSizes := [][3]int{{2, 2, 2}, {3, 3, 3}, {2, 3, 5}, {5, 2, 2}, {2, 2, 3}}
+	if o.Thorough() {
+		solidSizes = append(solidSizes, [3]int{7, 7, 7}, [3]int{3, 3, 5}, [3]int{4, 4, 4})
+	}
+	for i, g := range solidSizes {
+		l := []uint64{0, 5, top}[(i+int(o.Seed))%3]
+		addEnc(jcase{Kind: "enc", G: g, Paints: []blk.Paint{blk.Fill(l)}, Pts: samplePts(g, 2)})
+	}
+	// a parsed block must not share memory with the bytes it was parsed from
+	addAlias(jcase{Kind: "alias", G: g2, Paints: []blk.Paint{blk.Fill(3)}})
+	addAlias(jcase{Kind: "alias", G: g2, Paints: []blk.Paint{blk.Fill(1), blk.Cyc(sb0, 2, 1, uint64(2+rng.Intn(30)))}})
+	addAlias(jcase{Kind: "alias", G: [3]int{2, 2, 3}, Paints: []blk.Paint{blk.Hash([6]int{0, 0, 0, 16, 16, 24}, 2, uint64(rng.Intn(1<<16)), []uint64{1, 2, 3})}})
 
 	// n distinct labels in one sub-block (bit widths 1..9, non powers of two), near 2^64-1 for some
 	counts := []int{2, 3, 4, 5, 7, 8, 9, 15, 16, 17, 31, 32, 33, 63, 64, 65, 127, 128, 129, 255, 256, 257, 300, 511, 512}
